@@ -4,9 +4,11 @@ from notes.json).  Confirmation (suite green, demo fails with / passes without) 
 import json, os, re, shutil, sys
 ROOT = os.path.dirname(os.path.dirname(os.path.abspath(__file__)))
 SRC = sys.argv[1] if len(sys.argv) > 1 else '/tmp/seed/out'
+OFFSET = int(sys.argv[2]) if len(sys.argv) > 2 else 0
 for pid in sorted(os.listdir(SRC)):
-    for k in sorted(os.listdir(os.path.join(SRC, pid))):
-        d = os.path.join(SRC, pid, k)
+    for k0 in sorted(os.listdir(os.path.join(SRC, pid))):
+        d = os.path.join(SRC, pid, k0)
+        k = str(int(k0) + OFFSET) if k0.isdigit() else k0
         if not all(os.path.isfile(os.path.join(d, f)) for f in ('patch.diff', 'demo.py', 'notes.json')):
             continue
         notes = json.load(open(os.path.join(d, 'notes.json')))
